@@ -727,7 +727,7 @@ func genDev(r *rng.R) uint32 {
 
 func streamOps(c *ctx) {
 	r := c.r
-	N := 1500 * c.scale
+	N := 4000 * c.scale
 	// (1) fresh client per call: every operation, argument-focused (C01 C07 C06), one valid reply
 	for i := 0; i < N; i++ {
 		op := opDefs[i%len(opDefs)]
